@@ -500,13 +500,15 @@ def rundmc(
                 raise ValueError(
                     "Did not find e_trial in the restart file. This may mean that you are trying to restart from a different version of DMC"
                 )
-            e_trial = hdf["e_trial"][nrecorded - 1]
-            e_est = hdf["e_est"][nrecorded - 1]
             esigma = hdf["esigma"][nrecorded - 1]
             if verbose:
                 print(
                     f"Restarting calculation {continue_from} from block {blockoffset}"
                 )
+        # The stored e_trial, e_est are the ones the last block was run with; the
+        # next block uses the ones computed after it, as in the loop below.
+        e_est = estimate_energy(continue_from, [], ekey)
+        e_trial = e_est - feedback * np.log(np.mean(weights)).real
     else:
         df, configs = mc.vmc(
             wf,
@@ -606,7 +608,7 @@ def estimate_energy(hdf_file, df, ekey):
         import pyqmc.method.hdftools as hdftools
 
         with h5py.File(hdf_file, "r") as f:
-            nrecorded = hdftools.committed_rows(f)
+            nrecorded = hdftools.committed_rows(f, ekey[0] + ekey[1])
             en = f[ekey[0] + ekey[1]][:nrecorded]
             wt = f["weight"][:nrecorded]
     else:
